@@ -35,12 +35,20 @@ CFGS = {
     "sender_q": dict(Users='{"c1"}', Extras='{"mintto"}', UnstakeAmts="{}", RewardAmts="{2}", Returns="{}", MaxBatches="1", MaxN="9", MaxSeq="4", MaxPk="4",
                      MaxTime="0", AdminOps="FALSE"),
     # IBC faults: every outcome for every packet, refused submissions, permissionless and forced recovery
-    "ibc_q": dict(Extras='{"stray"}', Outcomes='{"ok", "err", "timeout"}', SubmitFails="{0}", Returns='{"exact"}', UnstakeAmts="{3}",
+    # two requesters and a return of ONE base unit: payouts of zero, repeated withdrawals
+    "dust_q": dict(Users='{"u1", "u2"}', UnstakeAmts="{2}", RewardAmts="{}", RcvKinds='{"self"}', Returns='{"one"}', MaxN="6", MaxSeq="2", MaxPk="2",
+                   MaxBatches="2", AdminOps="FALSE", Extras="{}", Principals='{"u1"}', MaxTime="5"),
+    "ibc_q": dict(Extras='{"stray"}', Outcomes='{"ok", "err", "timeout"}', SubmitFails="{0}", Returns='{"exact"}', UnstakeAmts="{3}", RcvKinds='{"self", "native", "staker"}',
                   RewardAmts="{}", MaxBatches="1", MaxN="6", MaxSeq="4", MaxPk="3", MaxTime="0"),
     # breaker / authorisation: starts halted, every principal tries everything
     "gate_q": dict(Extras='{"wrongsender", "matrix", "direct"}', StartHalted="TRUE",
                    Principals='{"u1", "admin", "mon1", "admin2", "contract", "hook|channel-1|staker", "hook|channel-1|collector"}', Returns='{"exact"}',
-                   MaxN="6", MaxSeq="3", MaxBatches="2", MaxPk="2", TreasuryAddr='"treasury"', RcvKinds='{"self"}', MaxTime="5"),
+                   MaxN="6", MaxSeq="3", MaxBatches="2", MaxPk="2", TreasuryAddr='"treasury"', RcvKinds='{"self"}', MaxTime="5",
+                   ResumeScales='{"same", "zerolst"}'),
+    # the same with one stake at most: used where the gate is not the property's own subject
+    "gates_q": dict(Extras='{"wrongsender", "matrix", "direct"}', StartHalted="TRUE",
+                    Principals='{"u1", "admin", "mon1", "admin2", "contract", "hook|channel-1|staker"}', Returns='{"exact"}',
+                    MaxN="3", MaxSeq="2", MaxBatches="2", MaxPk="2", TreasuryAddr='"treasury"', RcvKinds='{"self"}', MaxTime="5"),
     # ---------------------------------------------------------------- thorough tier: focused extensions, one dimension each
     "flow_long_t": dict(Returns='{"exact", "long"}', MaxN="8"),
     "flow_resume_t": dict(ResumeScales='{"same", "down", "up"}', Returns='{"exact"}', RcvKinds='{"self"}', RewardAmts="{}"),
